@@ -175,6 +175,21 @@ Example C12_nonvacuous :
    cidx (compIdx st) = 1).
 Proof. vm_compute. repeat split; reflexivity. Qed.
 
+(* ... the same schedule meets the static regime (3 goroutines, requests up to 400 bytes), and a single-goroutine history
+   with a zero-sized and an oversized request meets the hypotheses of C12_seq_replay (three chunks are acquired). *)
+Example C12_nonvacuous_static_seq :
+  ((N.of_nat 3 + 2) * 400 < 2 * max_alloc /\ Forall (start_le 400) c12_example_sched) /\
+  (let '(st1, outs) := alloc_list (a_reset (alloc_new 1 512)) 0 [600; 0; 2000; 100; 1073741825] in
+   outs = [Some (ORange 1 0 600); Some ONil; Some (ORange 2 0 2000); Some (ORange 3 0 100); Some (OPanic PTooBig)] /\
+   Forall good outs /\ firstn 5 (chunks st1) = [Some 512; Some 1024; Some 2048; Some 4096; None]).
+Proof.
+  split.
+  - split; [vm_compute; reflexivity|]. unfold c12_example_sched. repeat constructor; vm_compute; congruence.
+  - vm_compute. repeat split; try reflexivity. repeat constructor.
+Qed.
+
 Print Assumptions C12_disjoint.
 Print Assumptions C12_aligned.
 Print Assumptions C12_carry_refuted.
+Print Assumptions C12_seq_replay.
+Print Assumptions C12_disjoint_static.
